@@ -288,6 +288,8 @@ class Gen:
 
     def shape(self, tx, inarr=False):
         sh = [d if d >= 0 else max(self.mindim, self.rng.choice([0, 1, 1, 2, 2, 3][: self.maxdim + 3])) for d in tx["sh"]]
+        if getattr(self, "force_ext", None) is not None and not inarr:
+            sh = [d if d >= 0 else self.force_ext for d in tx["sh"]]
         if inarr and len(sh) > 1:      # inside a list only nested lists are a promised form, and they lose the rank when a leading extent is 0
             sh = [max(d, 1) if (i < len(sh) - 1 and tx["sh"][i] < 0) else d for i, d in enumerate(sh)]
         return sh
@@ -395,6 +397,13 @@ class Gen:
                 if all(x is not None for row in items for x in row):
                     dims = tuple(int(d) for d, decl in zip(sh, tx["sh"]) if decl < 0)
                     return {"sh": sh, "it": items}, (Dims(dims) if len(dims) > 1 else dims[0])
+            if (it["k"] == "arr" and it["it"]["k"] == "sc" and is_static(it) and like is None and not _inarr and not _noxobj and self.dims_p
+                    and rng.random() < self.dims_p * 1.5 and any(d < 0 for d in tx["sh"]) and n <= 6):
+                # built from its dimensions, items that are static arrays of scalars: every item all zeros
+                ni = int(np.prod(it["sh"]))
+                items = [{"sh": list(it["sh"]), "it": [[0] * it["it"]["w"] for _ in range(ni)]} for _ in range(n)]
+                dims = tuple(int(d) for d, decl in zip(sh, tx["sh"]) if decl < 0)
+                return {"sh": sh, "it": items}, (Dims(dims) if len(dims) > 1 else dims[0])
             if (it["k"] == "sc" and len(sh) > 1 and n > 0 and like is None and not _inarr and not _noxobj and self.np_forms
                     and rng.random() < getattr(self, "namesake_p", 0.15)):
                 # "another xobject" of a NAMESAKE class: the library names array classes after item type and shape only, so an array of
